@@ -124,10 +124,23 @@ def run_scenario(sim, nfc, params):
         world.activate(w, kind, variant)
         data, label = world.exchange_args(kind, choice, payload)
         desc["exchange"] = label
+        # half of the scenarios run the exchange under a host link fault: what the driver writes while it recovers
+        # (the ACK that cancels a command whose response timed out, repeated commands) must be well-formed too
+        fk = sim.wpick("link.fault", [(5, None), (3, ("rsp", "etimedout")), (1, ("ack", "etimedout")), (1, ("rsp", "eio")),
+                                      (1, ("rsp", "syntax")), (1, ("ack", "nak"))])
+        if fk is not None and not (world.DRIVERS[drv]["family"] == "acr122" and fk[0] == "ack"):
+            fault = {"at": sim.choose("link.fault.at", 6), "stage": fk[0], "kind": fk[1], "arg": 0}
+            desc["link_fault"] = "%s/%s at host command %d" % (fk[0], fk[1], fault["at"])
+            w.transport.arm(fault)
+            sim.fault("link_%s_%s" % fk)
         try:
             w.clf.exchange(data, sim.pick("timeout", [0.1, 0.005, 1.0]))
-        except nfc.clf.CommunicationError:
+        except (nfc.clf.CommunicationError, IOError):
             pass
+        except Exception as e:
+            if fk is None:
+                raise
+            sim.probe("scenario.fault_raised_%s(C13 territory)" % type(e).__name__)
     finally:
         w.close()
     written = w.transport.written
